@@ -360,7 +360,14 @@ def run(prog, rep, tier):
     f = need(prog, LG + "LGANM.sample")
     S = Sym(prog, inline=inline_helpers(prog, "sempler.lganm", keep=[LG + "_parse_interventions"], also=[U + "sampling_matrix"]))
     run_function(S, f)
+    MODEL = {"W", "means", "variances", "p"}
+    model_history(rep, S, f, MODEL, "HISTORY.sample")
     ctor = [c for c in S.select("call", qname=f.qname) if c.target == "sempler.normal_distribution.NormalDistribution.__init__"]
+    if len(ctor) > 1:
+        # several constructions: the one built from the working copies is judged (others were reported above when they read hidden state)
+        clean = [c for c in ctor if len(c.args) >= 2 and not any(isinstance(x, tuple) and len(x) == 2 and x[0] == "self" and x[1] not in MODEL for a in c.args[:2] for x in walk(a))]
+        if len(clean) == 1:
+            ctor = clean
     if len(ctor) != 1 or len(ctor[0].args) < 2:
         raise Inconclusive("LGANM.sample: expected exactly one NormalDistribution(mean, covariance) construction", f.node)
     mean_t, cov_t = ctor[0].args[0], ctor[0].args[1]
